@@ -120,6 +120,7 @@ func credentialOfParam(c *Ctx, fn *ssa.Function, idx int, depth int) string {
 }
 
 func runC10(c *Ctx, r *Report) {
+	importFoundation(c, r, "C10", "platform-options")
 	r.Rule("C10/password-prompt-anchored", "the built-in pattern that decides when the login password is typed matches only where the prompt ends a line", 1)
 	checkPasswordPromptAnchored(c, r, "C10/password-prompt-anchored")
 	importFoundation(c, r, "C10", "transport-pipe")
